@@ -147,14 +147,17 @@ func (index *metricIndexDatabase) GenSeriesID(metricID metric.ID, row *metric.St
 	binary.LittleEndian.PutUint64(scratch[:], tagsHash)
 
 	seriesID, isNewSeries, err = index.series.GetOrCreateValue(uint32(metricID), scratch[:], func() (uint32, error) {
-		return index.createSeriesID(metricID), nil
-	})
-	if err == nil && isNewSeries {
+		newSeriesID := index.createSeriesID(metricID)
+		// the limit is checked before the series is stored: a rejected series must not keep an id (the sequence is
+		// not advanced for it, so every rejected series got the same id, returned without error when it came again)
 		limits := models.GetDatabaseLimits(index.metaDB.Name())
 		seriesLimit := limits.GetSeriesLimit(strutil.ByteSlice2String(row.NameSpace()), strutil.ByteSlice2String(row.Name()))
-		if seriesLimit > 0 && seriesLimit < seriesID {
+		if seriesLimit > 0 && seriesLimit < newSeriesID {
 			return 0, constants.ErrTooManySeries
 		}
+		return newSeriesID, nil
+	})
+	if err == nil && isNewSeries {
 		// if new series do inverted index build
 		index.sequenceCache.Add(metricID, seriesID)
 
